@@ -144,7 +144,7 @@ def rows_of(exp, cols):
 
 
 def same_value(g, e):
-    if isinstance(e, int) and not isinstance(g, float):
+    if isinstance(e, int):  # integer expectations are exact, whatever type the stored value has
         return g == e
     return abs(g - e) <= 1e-9 * max(1.0, abs(e))
 
@@ -178,7 +178,8 @@ def read_cool(uri, cols=("count",)):
         stored = sorted(g["pixels"].keys())
         px = {c: g["pixels/" + c][:] for c in ["bin1_id", "bin2_id"] + [c for c in cols if c in stored]}
         attrs = {k: _py(v) for k, v in g.attrs.items()}
-    return dict(bins=bins, pixels=px, attrs=attrs, stored_columns=stored)
+        dts = {c: g["pixels/" + c].dtype for c in stored}
+    return dict(bins=bins, pixels=px, attrs=attrs, stored_columns=stored, dtypes=dts)
 
 
 class Timeout(Exception):
@@ -289,18 +290,18 @@ class Scope:
         return "+".join(tags) or "regular"
 
 
-def check_file(B, S, f, out_uri, case, prefix="", aggs=None, nontrivial=None):
+def check_file(B, S, f, out_uri, case, prefix="", aggs=None, nontrivial=None, kind=None):
     """file-level contracts on a coarsened cooler"""
     aggs = aggs or {"count": "sum"}
     cols = list(aggs)
-    kind = S.kind(f, aggs)
+    kind = kind or S.kind(f, aggs)
     cmap, cb, _ = model_bins(S.spec, f)
     exp = model_pixels(S.pix, cmap, aggs)
     nt = S.nnz > 0 if nontrivial is None else nontrivial
     got = B.guarded(prefix + "output-readable", case, lambda: read_cool(out_uri, cols),
                     signature=f"{prefix}output-readable:{kind}")
     if got is None:
-        return False
+        return False, None
     ok1 = B.check(prefix + "bins==union-of-k-old-bins", got["bins"] == cb, case, got["bins"], cb, nt,
                   signature=f"{prefix}bins==union-of-k-old-bins:{kind}")
     if cols != ["count"]:
@@ -324,7 +325,7 @@ def check_file(B, S, f, out_uri, case, prefix="", aggs=None, nontrivial=None):
         ok3 &= B.check(prefix + "total-preserved", cond, dict(case, column=c),
                        dict(pixel_total=tot_out, sum_attr=got["attrs"].get("sum")), tot_in, nt,
                        signature=f"{prefix}total-preserved:{kind}")
-    return ok1 and ok2 and ok3
+    return (ok1 and ok2 and ok3), got
 
 
 def run_stream(uri, f, cs, cols, agg, batchsize=1):
@@ -439,7 +440,7 @@ def main():
                + ("stream equality for EVERY chunksize 1..nnz+1 when nnz<=30 and k<=4, else one per distinct partition; " if T else
                   "stream equality for one chunksize per DISTINCT work partition reachable by chunksizes 1..nnz+1; ")
                + "file-level coarsen_cooler on rotating chunksizes; nproc in {1,2" + (",3" if T else "") + "} incl. output in the source file; "
-               "aggregations sum/max/min/mean/first on extra columns, count dtypes int32/int64/float64; chains k1 then k2 vs k1*k2; "
+               "aggregations sum/max/min/mean/first on extra columns, count dtypes int32/int64/float64; float64-fractional and int64-beyond-2^31 counts x 8 ways of leaving the dtype unspecified (API: None/omitted/{}/other-column-only/agg-only; CLI: no --field/--field count/--field count:agg=sum); chains k1 then k2 vs k1*k2; "
                "coarsen(merge) vs merge(coarsen) and coarsen(merge(coarsen)); `cooler coarsen` CLI in-process"
                + ("; plus seeded random tables/0-1-2 matrices/k/chunksize" if T else ""))
     B.rule = ("case = (bin table, pixel list, storage mode, k, chunksize, nproc, level/agg); non-trivial when the source has "
@@ -530,6 +531,72 @@ def main():
                             signature="dtype.value-type-carried-over")
                 if os.path.exists(out):
                     os.remove(out)
+    # ---------------------------------------------------------------- 3b. value type left unspecified by the caller
+    # "each new pixel is the sum of exactly the old pixels": when the source's count column is not int32 (float64 with
+    # fractional values; int64 with block sums beyond 2^31) and the caller names no dtype for it - in any of the ways the
+    # API and the CLI allow - the stored sums must still be exact (no truncation, no clipping) and `sum` preserved.
+    from click.testing import CliRunner as _CliRunner
+    from cooler.cli import cli as _cli
+    _runner = _CliRunner()
+    vt_tabs = [t for t in tabs if t[0] in (("fixed-3chrom", "variable") if not T else
+                                           ("fixed-3chrom", "variable", "fixed10-short-last", "one-bin-chroms", "fixed-2chrom-10+5"))]
+    for tname, spec in vt_tabs:
+        for symm in ((True, False) if T else (True,)):
+            basepix = scopes[(tname, "dense", symm)].pix if (tname, "dense", symm) in scopes else \
+                pixels_from_dense(dict(matrices(sum(len(e) - 1 for e in spec.values()), B.rng, 5))["dense"], symm)
+            n_ = len(basepix)
+            sources = {
+                "float64-fractional": np.array([0.5 + 1.25 * i + (5.75 if i % 3 == 0 else 0.0) for i in range(n_)], dtype=np.float64),
+                "int64-beyond-int32": np.array([1_200_000_000 + 700_000_001 * i for i in range(n_)], dtype=np.int64),
+            }
+            for sname, counts in sources.items():
+                px = basepix[["bin1_id", "bin2_id"]].copy()
+                px["count"] = counts
+                px["w"] = np.array([0.25 * (i % 5) for i in range(n_)], dtype=np.float64)
+                Sv = Scope(B, tname, spec, f"dense-{sname}+w", px, symm, tag="vt")
+                src_dt = px["count"].dtype
+                forms = {
+                    "dtypes-None": dict(api=dict(dtypes=None)),
+                    "dtypes-omitted": dict(api=dict()),
+                    "dtypes-empty-dict": dict(api=dict(dtypes={})),
+                    "dtypes-other-column-only": dict(api=dict(dtypes={"w": np.float64}, columns=["count", "w"]), aggs={"count": "sum", "w": "sum"}),
+                    "agg-sum-explicit": dict(api=dict(agg={"count": "sum"}, dtypes={})),
+                    "cli-no-field": dict(cli=[]),
+                    "cli-field-count": dict(cli=["--field", "count"]),
+                    "cli-field-count-agg-sum": dict(cli=["--field", "count:agg=sum"]),
+                }
+                for fi, f in enumerate([2, 3, 4] if T else [2, 3]):
+                    for form, how in forms.items():
+                        cs = (1, 3, 10 ** 6)[(fi + len(form)) % 3]
+                        npc = 2 if (form in ("dtypes-empty-dict", "cli-no-field") and f == 2) else 1
+                        kind = f"{sname}:{form}"
+                        out = B.path("vt.cool")
+                        aggs = how.get("aggs", {"count": "sum"})
+                        if "api" in how:
+                            kw = {k: (dict(v) if isinstance(v, dict) else v) for k, v in how["api"].items()}  # fresh dicts: the library fills them in
+                            case = Sv.case(factor=f, chunksize=cs, nproc=npc, form=form,
+                                           call={k: (str(v) if k == "dtypes" and v else v) for k, v in how["api"].items()})
+                            ran = B.guarded("valuetype.coarsen-runs", case,
+                                            lambda: with_timeout(lambda: (cooler.coarsen_cooler(Sv.uri, out, f, chunksize=cs, nproc=npc, **kw), True)[1]),
+                                            signature=f"valuetype.coarsen-runs:{kind}")
+                        else:
+                            args = ["coarsen", "-k", str(f), "-c", str(cs), "-n", str(npc)] + how["cli"] + ["-o", out, Sv.uri]
+                            case = Sv.case(form=form, argv=args[:-3] + ["-o", "OUT", "IN"])
+                            res = invoke(_runner, _cli, args)
+                            ran = res.exit_code == 0 and res.exception is None
+                            if not ran:
+                                B.fail("valuetype.coarsen-runs", case, repr(res.exception), "exit 0", f"valuetype.coarsen-runs:{kind}")
+                        if ran:
+                            B.ok("valuetype.coarsen-runs", case)
+                            _, got = check_file(B, Sv, f, out, case, prefix="valuetype.", aggs=aggs, kind=kind)
+                            if got is not None and "count" in got["dtypes"]:
+                                dt = got["dtypes"]["count"]
+                                # a type that can hold the exact sums of this source: same kind, at least as wide
+                                B.check("valuetype.stored-type-holds-exact-sums", dt.kind == src_dt.kind and dt.itemsize >= src_dt.itemsize,
+                                        case, str(dt), f"{src_dt.kind}{src_dt.itemsize} or wider", signature=f"valuetype.stored-type-holds-exact-sums:{kind}")
+                        if os.path.exists(out):
+                            os.remove(out)
+                os.remove(Sv.uri)
     # a block sum beyond int32 in an int32 column (the default count type)
     spec = t_fixed({"chr1": 40}, 10)
     big = pd.DataFrame({"bin1_id": [0, 0, 1, 2], "bin2_id": [0, 1, 1, 3], "count": [1_500_000_000, 1_500_000_000, 7, 2]}).astype(
